@@ -77,14 +77,15 @@ Definition split_at_byte_exclusive (d : bytes) (b : byte) : option (bytes * byte
   | _ => span_byte b d
   end.
 
-(* gix_features::decode::leb64_from_read as used by util::var_int (debug build: the 11th byte
-   trips a debug_assert; `value += 1` panics on overflow) *)
+(* gix_features::decode::leb64_from_read as used by util::var_int: an 11th byte is an error
+   (`var_int` returns None); `value += 1` would panic on overflow in a debug build, which cannot
+   happen within 10 bytes *)
 Fixpoint leb_loop (d : bytes) (value i : N) (last : byte) : res (N * bytes) :=
   if b2N last <? 128 then Ok (value, d)
   else match d with
        | [] => none
        | c :: r =>
-           if 10 <? i + 1 then Panic
+           if 10 <? i + 1 then none
            else if 18446744073709551616 <=? value + 1 then Panic
            else leb_loop r (N.modulo ((value + 1) * 128) 18446744073709551616 + b2N c mod 128) (i + 1) c
        end.
@@ -285,11 +286,11 @@ Fixpoint tree_one (fuel : nat) (d : bytes) : res (tree * bytes) :=
       if has_adjacent_dup sorted then none
       else Ok (Tree path id (if (0 <=? num)%Z then Some (Z.to_N num) else None) sorted, d)
   end.
-(* tree::decode: the assert! on left-over data is a panic *)
+(* tree::decode: left-over data means the extension is corrupt and is ignored *)
 Definition tree_decode (d : bytes) : res tree :=
   match tree_one (S (length d)) d with
   | Ok (t, []) => Ok t
-  | Ok (_, _ :: _) => Panic
+  | Ok (_, _ :: _) => none
   | Err e => Err e
   | Panic => Panic
   | OutOfFuel => OutOfFuel
@@ -535,8 +536,7 @@ Fixpoint decode_blocks (v4 : bool) (data : bytes) (blocks : list (N * N)) (acc :
            end
   end.
 Definition decode_group (v4 : bool) (data : bytes) (blocks : list (N * N)) : outcome (list entry) derr :=
-  if 4294967296 <=? fold_left (fun a b => a + snd b) blocks 0 then Panic   (* sum::<u32>() overflow *)
-  else decode_blocks v4 data blocks [].
+  decode_blocks v4 data blocks [].
 
 (* all threads run to completion; a panic in any of them panics the scope; otherwise the first
    error in thread order wins; otherwise results are appended in thread order *)
@@ -570,7 +570,11 @@ Definition from_bytes (threads : N) (data : bytes) : outcome state derr :=
   | Some off =>
       if 1 <? threads then
         let extd := skipn (N.to_nat off) data in
-        let table := ieot_find extd in
+        let table := match ieot_find extd with
+                     | Some offs =>
+                         if forallb (fun oc => (12 <=? fst oc) && (fst oc <=? off)) offs then Some offs else None
+                     | None => None
+                     end in
         let threads' := threads - 1 in     (* evaluated eagerly as the argument of bool::then *)
         let entries_res :=
           match table with
